@@ -834,6 +834,48 @@ def _unbox_int(se, a, kw):
     return V(INT, ops.UF("unbox_int", z3.IntSort(), z3.IntSort())(a[0].t))
 
 
+@specfun("re_split")
+def _re_split(se, a, kw):
+    f = ops.UF("re_split", z3.StringSort(), z3.IntSort(), z3.StringSort(), z3.SeqSort(z3.StringSort()))
+    return V(SEQ(STR), f(unopt(a[0]).t, a[1].t, unopt(a[2]).t))
+
+
+@specfun("pat_source")
+def _pat_source(se, a, kw):
+    return V(STR, ops.UF("pat_source", z3.IntSort(), z3.StringSort())(a[0].t))
+
+
+@specfun("pat_flags")
+def _pat_flags(se, a, kw):
+    return V(INT, ops.UF("pat_flags", z3.IntSort(), z3.IntSort())(a[0].t))
+
+
+@specfun("re_matches_f")
+def _re_matches_f(se, a, kw):
+    return vbool(ops.UF("re_matches_f", z3.StringSort(), z3.IntSort(), z3.StringSort(), z3.BoolSort())(unopt(a[0]).t, a[1].t, unopt(a[2]).t))
+
+
+@specfun("re_group_f")
+def _re_group_f(se, a, kw):
+    return V(STR, ops.UF("re_group_f", z3.StringSort(), z3.IntSort(), z3.StringSort(), z3.IntSort(), z3.StringSort())(unopt(a[0]).t, a[1].t, unopt(a[2]).t, a[3].t))
+
+
+@specfun("py_repr")
+def _py_repr(se, a, kw):
+    return V(STR, ops.UF("repr_str", z3.StringSort(), z3.StringSort())(unopt(a[0]).t))
+
+
+@specfun("empty_strs")
+def _empty_strs(se, a, kw):
+    return V(SEQ(STR), z3.Empty(z3.SeqSort(z3.StringSort())))
+
+
+@specfun("G_int")
+def _g_int(se, a, kw):
+    q = z3.simplify(a[0].t).as_string()
+    return V(INT, z3.Const("G_" + q, z3.IntSort()))
+
+
 @specfun("the")
 def _the(se, a, kw):
     """the(x): the value of an Opt[...] that the surrounding clause has established to be present"""
@@ -1004,15 +1046,6 @@ def _fs_content(se, a, kw):
 @specfun("file_magic")
 def _file_magic(se, a, kw):
     return V(INT, ops.UF("file_magic", z3.StringSort(), z3.IntSort(), z3.IntSort())(unopt(a[0]).t, a[1].t))
-
-
-@specfun("G_int")
-def _g_int(se, a, kw):
-    q = z3.simplify(a[0].t).as_string()
-    return V(INT, z3.Const("G_" + q, z3.IntSort()))
-
-
-SPECFUNS["pabspath"] = _uf_spec("pabspath", ["str"], "str")
 
 
 @specfun("isnone_any")
